@@ -30,6 +30,7 @@ func init() {
 func runC12(c *Ctx) {
 	w := c.W
 	hostnameRules(c) // NameError/MatchesDomain are VerifyHostname's verdict
+	c.DeadObligations(c.W.FuncsOfPkg("z/verifier"), "package verifier")
 	fn := w.Fn(fnVWC)
 	if fn == nil {
 		c.Undecided("R-PROV", fnVWC, "anchor", "-", "not found")
